@@ -164,6 +164,23 @@ def output_table(ctx, f):
                 rows = _rows_of(flow, f, arg.right)
                 if labels is not None and rows is not None:
                     return c, labels, rows
+            # table = [labels] ; for ... in zip(...): table.append(row) ; [table.reverse() is not possible here: the header would move]
+            a0 = c.args[0]
+            if isinstance(a0, ast.Name):
+                dv = flow.def_value(a0, mutable_ok=True)
+                labels = _labels_of(flow, dv) if dv is not None else None
+                dn, un = flow.unique_def_node(a0), flow.cfg.node_containing(a0)
+                if labels is not None and dn is not None and un is not None:
+                    muts = flow.mutations_between(a0.id, dn, un)
+                    apps = [m for m in muts if isinstance(m, ast.Expr) and isinstance(m.value, ast.Call) and isinstance(m.value.func, ast.Attribute)
+                            and m.value.func.attr == "append" and len(m.value.args) == 1]
+                    if len(apps) == 1 and len(muts) == 1:
+                        loop = getattr(apps[0], "parent", None)
+                        if isinstance(loop, ast.For) and apps[0] in loop.body and not loop.orelse:
+                            fake = ast.ListComp(elt=apps[0].value.args[0], generators=[ast.comprehension(target=loop.target, iter=loop.iter, ifs=[], is_async=0)])
+                            rows = _rows_of(flow, f, fake)
+                            if rows is not None:
+                                return c, labels, rows
     return None
 
 
